@@ -76,6 +76,36 @@ def make(bootstrap):
         c: int = 3
 
     @spec_class(**kw)
+    class HZ(HP):  # FALSY re-defaults: they too are passed to the parent constructor
+        a = 0
+        b = ""
+        c: int = 3
+
+    @spec_class(**kw)
+    class KB:  # depth-3 chain, the key is introduced in the MIDDLE class
+        a: int = 0
+
+    @spec_class(key="b", **kw)
+    class KM(KB):
+        b: str
+
+    @spec_class(**kw)
+    class KL(KM):
+        c: int = 4
+
+    @spec_class(**kw)
+    class OB:  # overflow attribute introduced in the middle of a depth-3 chain
+        a: int = 1
+
+    @spec_class(init_overflow_attr="extra", **kw)
+    class OM(OB):
+        b: str = "b"
+
+    @spec_class(**kw)
+    class OL(OM):
+        c: int = 2
+
+    @spec_class(**kw)
     class NI:  # init=False attribute
         a: int = 1
         h: int = Attr(default=5, init=False)
@@ -99,7 +129,7 @@ def make(bootstrap):
         b: str = "b"
         c: int = 2
 
-    ns = {c.__name__: c for c in (P, C, PC, R, M, HC, HD, NI, K, KD, O)}
+    ns = {c.__name__: c for c in (P, C, PC, R, M, HC, HD, HZ, KL, OL, NI, K, KD, O)}
     return ns
 
 
@@ -115,6 +145,9 @@ REF = {
     "M": dict(attrs=[("b", str, "two"), ("a", int, 1), ("c", int, 0)]),
     "HC": dict(attrs=[("a", int, ND), ("b", str, "hb"), ("c", int, 3)], hand={"a": 100, "b": "sig"}),
     "HD": dict(attrs=[("a", int, 7), ("b", str, "hb"), ("c", int, 3)], hand={"a": 100, "b": "sig"}),
+    "HZ": dict(attrs=[("a", int, 0), ("b", str, ""), ("c", int, 3)], hand={"a": 100, "b": "sig"}),
+    "KL": dict(attrs=[("a", int, 0), ("b", str, ND), ("c", int, 4)], key="b"),
+    "OL": dict(attrs=[("a", int, 1), ("b", str, "b"), ("c", int, 2)], overflow="extra"),
     "NI": dict(attrs=[("a", int, 1), ("h", int, 5), ("c", int, 2)], noninit={"h"}),
     "K": dict(attrs=[("b", str, ND), ("a", int, 0), ("c", int, 4)], key="b"),
     "KD": dict(attrs=[("b", str, "dflt"), ("a", int, 0), ("c", int, 4)], key="b"),
@@ -231,7 +264,7 @@ def obligations(tier):
     T = 200 if tier == "quick" else 900
     for fam in ("eager", "lazy"):
         for cname in REF:
-            if tier == "quick" and fam == "lazy" and cname in ("PC", "R", "M", "KD", "NI"):
+            if tier == "quick" and fam == "lazy" and cname in ("PC", "R", "M", "KD", "NI", "HZ", "OL"):
                 continue
             obs.append(Ob(f"C09.{fam}.{cname}", make_h(fam, cname), _warm(), f"hierarchy {cname} ({fam} bootstrap); keyword presence bits for a, b, c; values conforming symbolic (int / str) or from a non-conforming pool; key passed positionally or by name; one unknown keyword from {UNKNOWN}; init=False attribute passed by name", expect={"ok"}, timeout=T))
     return obs
